@@ -84,6 +84,7 @@ type simReader struct {
 	reads int
 	closes int
 	log   *EventLog
+	mu    sync.Mutex // a tool may read its input in a goroutine of its own while the harness inspects the reader
 }
 
 func newSimReader(id int, data []byte, steps []Step, log *EventLog) *simReader {
@@ -91,6 +92,8 @@ func newSimReader(id int, data []byte, steps []Step, log *EventLog) *simReader {
 }
 
 func (r *simReader) Read(p []byte) (n int, err error) {
+	r.mu.Lock()
+	defer r.mu.Unlock()
 	r.reads++
 	defer func() { r.log.Add("R f=%d len=%d n=%d err=%v", r.id, len(p), n, err) }()
 	if r.term != nil {
@@ -145,7 +148,16 @@ func (r *simReader) Read(p []byte) (n int, err error) {
 	}
 }
 
+// counters returns (reads, reads after the end, closes) under the lock.
+func (r *simReader) counters() (int, int, int) {
+	r.mu.Lock()
+	defer r.mu.Unlock()
+	return r.reads, r.extra, r.closes
+}
+
 func (r *simReader) Close() error {
+	r.mu.Lock()
+	defer r.mu.Unlock()
 	r.closes++
 	r.log.Add("C f=%d", r.id)
 	return nil
@@ -156,9 +168,18 @@ type recWriter struct {
 	buf    []byte
 	writes int
 	log    *EventLog
+	mu     sync.Mutex
+}
+
+func (w *recWriter) snapshot() (string, int) {
+	w.mu.Lock()
+	defer w.mu.Unlock()
+	return string(w.buf), w.writes
 }
 
 func (w *recWriter) Write(p []byte) (int, error) {
+	w.mu.Lock()
+	defer w.mu.Unlock()
 	w.writes++
 	w.buf = append(w.buf, p...)
 	w.log.Add("W len=%d sum=%x", len(p), sha256.Sum256(p))
